@@ -12,7 +12,7 @@ from . import contracts as C
 from .engine import FunctionVerifier, VerifError, State
 from .calls import Engine
 from . import externals as X
-from .solve import check_with_retry, check_canary
+from .solve import check_with_retry, check_canary, cross_check
 
 HERE = os.path.dirname(os.path.abspath(__file__))
 CONTRACT_DIR = os.path.join(os.path.dirname(HERE), "contracts")
@@ -136,6 +136,8 @@ def verify_unit(unit, timeout_ms=10000):
                 "line": o.lineno,
                 "text": o.text,
             }
+            if r["status"] == "unsat" and os.environ.get("PYVC_CROSSCHECK") == "1" and r["solver"] != "simplify":
+                rec["cross"] = cross_check(o)
             if r["status"] == "sat":
                 rec["model"] = r["model"]
             if r["status"] == "unknown":
